@@ -227,9 +227,10 @@ func init() {
 		NCases: func(c *core.Ctx) int {
 			return 4*len(c13Texts(c)) + thorN(c, 1500, 20000)
 		},
-		Chunk:   100,
-		MustSee: []string{"single_cuts", "double_cuts", "pause_decisions", "history_probes", "last_token_probes"},
-		Run:     c13Run,
+		Chunk:    100,
+		Sanitize: true,
+		MustSee:  []string{"single_cuts", "double_cuts", "pause_decisions", "history_probes", "last_token_probes"},
+		Run:      c13Run,
 	})
 }
 
